@@ -485,7 +485,22 @@ fn viol(id: &str, step: usize, op: &Op, msg: String) -> Option<Violation> {
 }
 
 /// Execute a history under the C06 oracle.
+/// What a panic payload says.
+pub fn payload_text(p: &(dyn std::any::Any + Send)) -> String {
+    if let Some(s) = p.downcast_ref::<&str>() { s.to_string() } else if let Some(s) = p.downcast_ref::<String>() { s.clone() } else { "(a panic without a message)".to_string() }
+}
+
+/// `run_c06_inner` with every panic that is not already attributed to an operation contained: a
+/// query or an accessor of the library that panics is a violation (`c06.panic`), not the death of a
+/// worker thread.
 pub fn run_c06(sc: &HistSc, st: &mut Stats) -> HistOutcome {
+    match catch_unwind(AssertUnwindSafe(|| run_c06_inner(sc, st))) {
+        Ok(o) => o,
+        Err(p) => HistOutcome { violation: Some(Violation { check_id: "c06.panic".into(), message: format!("a query, an accessor or the index dump panicked after an operation had returned: {}", payload_text(p.as_ref())) }), outcome: 0, nontrivial: false },
+    }
+}
+
+fn run_c06_inner(sc: &HistSc, st: &mut Stats) -> HistOutcome {
     set_hash_config(hash_mode_of(&sc.hash_mode), sc.hash_seed);
     let mut regs: [Object; REGISTERS] = [Object::new(), Object::new(), Object::new()];
     let mut maps: [Option<CodeMap>; REGISTERS] = [None, None, None];
